@@ -244,7 +244,10 @@ def run(tier, seed):
 
   acc_pairs = [(('SuggestTrials', 1, 1, 1, 1, ('deliver', [], [], [])), ('SuggestTrials', 1, 1, 2, 1, ('deliver', [], [], []))),
                (('SuggestTrials', 1, 1, 1, 2, ('deliver', [], [], [])), ('SuggestTrials', 1, 1, 3, 1, ('deliver', [], [], []))),
-               (('SuggestTrials', 1, 1, 2, 1, ('deliver', [], [], [])), ('CheckEarlyStop', True, 1, 1, 1, ('decide', [], [], [])))]
+               (('SuggestTrials', 1, 1, 2, 1, ('deliver', [], [], [])), ('CheckEarlyStop', True, 1, 1, 1, ('decide', [], [], []))),
+               # the SAME worker asks twice at once (a retried request): in every serial order each call gets its own finished operation
+               (('SuggestTrials', 1, 1, 1, 1, ('deliver', [], [], [])), ('SuggestTrials', 1, 1, 1, 1, ('deliver', [], [], []))),
+               (('SuggestTrials', 1, 1, 2, 2, ('deliver', [], [], [])), ('SuggestTrials', 1, 1, 2, 1, ('deliver', [], [], [])))]
   for (a, b) in acc_pairs:
     for backend in (('ram', 'sqlmem') if tier != 'quick' else ('ram',)):
       prefix = [('CreateStudy', 1, 1, False, 'SS_ACTIVE', [(1, True)])]
@@ -252,7 +255,7 @@ def run(tier, seed):
         prefix.append(('SuggestTrials', 1, 1, 1, 1, ('deliver', [], [], [])))
       seen_exec = set()
       for first in (0, 1):
-        for j in range(0, 7):
+        for j in range(0, 14):
           serv_, holder_, proxy_ = svc.make_servicer(backend, recycle=True)
           serv_.default_pythia_service = _ps.PythiaServicer(serv_, _CounterFactory())
           for rpc in prefix:
@@ -280,6 +283,12 @@ def run(tier, seed):
           if any(o_[0] != 'Done' for o_ in results):
             concrete = True
             rep.violation('a suggestion call / early-stopping check fails solely because of the interleaving', dict(obj, outcomes=[o_[:2] for o_ in results]))
+          elif any(o_[1] == 'RpOp' and (not o_[2]['done'] or o_[2]['err'] or not o_[2]['trials']) for o_ in results) or \
+              len({(o_[2]['client'], o_[2]['num']) for o_ in results if o_[1] == 'RpOp'}) != sum(1 for o_ in results if o_[1] == 'RpOp'):
+            concrete = True
+            rep.violation('overlapping suggestion calls: a call is answered with an unfinished / empty operation or with the operation of the other call '
+                          '(in every serial order each call gets its own finished operation carrying trials)',
+                          dict(obj, outcomes=[(o_[1], {k_: o_[2][k_] for k_ in ('client', 'num', 'done', 'err')}, [t_['id'] for t_ in o_[2]['trials']]) if o_[1] == 'RpOp' else o_[:2] for o_ in results]))
           elif got != base + ncalls or sorted(_Counter.seen) != list(range(base, base + ncalls)):
             concrete = True
             rep.violation('lost update of persisted algorithm state: %d overlapping algorithm calls started from the stored counters %r and left %d '
